@@ -75,9 +75,11 @@ func c17Doc(r *fw.Rand, n int, shape int) interface{} {
 	switch shape % 4 {
 	case 0:
 		return bson.D{{Key: "_id", Value: id}, {Key: "a", Value: int32(n % 5)}, {Key: "arr", Value: bson.A{int32(1), bson.D{{Key: "x", Value: bson.A{"p", "q"}}}, primitive.Binary{Subtype: 0, Data: []byte{1, 2, 3}}}},
-			{Key: "sub", Value: bson.D{{Key: "deep", Value: bson.D{{Key: "list", Value: bson.A{int32(7), int32(8)}}}}}}, {Key: "bin", Value: primitive.Binary{Subtype: 0, Data: []byte{9, 9, 9, byte(n)}}}, {Key: "g", Value: "grp"}}
+			{Key: "sub", Value: bson.D{{Key: "deep", Value: bson.D{{Key: "list", Value: bson.A{int32(7), int32(8)}}}}}}, {Key: "bin", Value: primitive.Binary{Subtype: 0, Data: []byte{9, 9, 9, byte(n)}}}, {Key: "g", Value: "grp"},
+			// arrays directly inside arrays (a clone has to descend into them too)
+			{Key: "grid", Value: bson.A{bson.A{int32(1), int32(2)}, bson.A{bson.A{int32(3)}, bson.D{{Key: "c", Value: bson.A{int32(4)}}}}}}}
 	case 1:
-		return bson.M{"_id": id, "a": int32(n % 5), "arr": bson.A{bson.M{"x": []interface{}{"p", "q"}}, []byte{4, 5, 6}}, "sub": bson.M{"deep": bson.D{{Key: "list", Value: []interface{}{int32(1)}}}}, "g": "grp"}
+		return bson.M{"_id": id, "a": int32(n % 5), "grid": bson.A{bson.A{"p", bson.A{"q"}}, []interface{}{[]interface{}{int32(1)}}}, "arr": bson.A{bson.M{"x": []interface{}{"p", "q"}}, []byte{4, 5, 6}}, "sub": bson.M{"deep": bson.D{{Key: "list", Value: []interface{}{int32(1)}}}}, "g": "grp"}
 	case 2:
 		return &c17Struct{ID: id, Tags: []string{"t1", "t2"}, Meta: map[string]interface{}{"m": bson.A{int32(1), int32(2)}, "n": map[string]interface{}{"o": []byte{1}}}, Blob: []byte{8, 7, 6, byte(n)}, Sub: &c17Sub{X: []int32{1, 2}, B: []byte{5}}, List: []interface{}{bson.D{{Key: "q", Value: int32(1)}}}, A: int32(n % 5)}
 	default:
